@@ -1,0 +1,17 @@
+//go:build verif
+
+package faucetsc
+
+import (
+	cstate "0chain.net/chaincore/chain/state"
+)
+
+// Thin wrappers for the verification harness (governance settings, C48). No logic.
+
+func VerifGovGlobalNode(balances cstate.StateContextI) (*GlobalNode, error) {
+	gn := &GlobalNode{}
+	err := balances.GetTrieNode(globalNodeKey, gn)
+	return gn, err
+}
+
+func VerifGovValidate(gn *GlobalNode) error { return gn.validate() }
